@@ -1569,6 +1569,26 @@ class FnKinds:
                 self.ev("loop-end", f, loop=lp)
                 return
         init = f.get("init")
+        if lp is None and f.get("c") is not None and not f.get("from_while"):
+            # for(init; c; inc) body  ==  init; while(c) { body; inc; }   (no `continue` in the body): read it as the while loop it is
+            body = f.get("body")
+
+            def has_continue(n):
+                if n is None:
+                    return False
+                if n.get("k") == "Continue":
+                    return True
+                if n.get("k") in ("For", "While", "Do", "ForRange", "Lambda"):
+                    return False
+                return any(has_continue(c) for c in children(n))
+            if not has_continue(body):
+                if init is not None:
+                    self.stmt(init) if strip(init).get("k") == "Decl" else self.expr(init, stmt=True)
+                stmts = list(body.get("s", [])) if body is not None and body.get("k") == "Block" else ([body] if body is not None else [])
+                wnode = {"k": "While", "i": f.get("i"), "l": f.get("l"), "c": f.get("c"),
+                         "body": {"k": "Block", "i": (body or {}).get("i"), "l": f.get("l"), "s": stmts + _comma_list(f.get("inc"))}, "from_for": f}
+                self.while_(wnode)
+                return
         if lp is None:
             self.unk("loop header not recognised: for(%s; %s; %s)" % (render(init), render(f.get("c")), render(f.get("inc"))), f)
             # still walk the body so that events exist, with the variable unknown
@@ -1695,7 +1715,7 @@ class FnKinds:
     def _while_as_for(self, w):
         """`while(c) { body; ++a; ++b; }` without `continue` is `for(; c; ++a, ++b) { body }`: returned as a synthetic For node when the for-loop
         normaliser recognises that header as an iterator / segment / counted loop with static bounds (otherwise None: generic while)"""
-        if w.get("k") != "While":
+        if w.get("k") != "While" or w.get("from_for") is not None:
             return None
         body = w.get("body")
         if body is None or body.get("k") != "Block" or not body.get("s"):
@@ -2277,10 +2297,16 @@ def coverage(fk, key, base_frames=(), after_seq=0, case=None):
             skipped.append("%s[%s] in loop %s" % (key, render(e.idx), loops[0].canon))
             continue
         pieces.append((Lin.const(r.lo), fk.norm(r.hi), "%s[%s] in loop %s" % (key, render(e.idx), lp.canon)))
+    if arr.fresh and arr.zero and getattr(arr, "valueinit", False) and getattr(arr, "offset", False) and not getattr(arr, "in_loop", False):
+        # std::vector<Index>(n) value-initialises: the first entry of a CSR offset array is the 0 it has to be
+        pieces.append((Lin.const(0), Lin.const(1), "%s[0] = 0 by value-initialisation of the offset array" % key))
+    early = _early_exit_before(fk, key, ext, base_frames, alloc_seq, case)
     cur = Lin.const(0)
     used = []
     for _ in range(len(pieces) + 1):
         if cur == ext:
+            if early is not None:
+                return early
             return True, "extent %r covered by %s" % (ext, "; ".join(used))
         nxt = [p for p in pieces if p[0] == cur or (p[0].is_const() and cur.is_const() and p[0].c <= cur.c)]
         nxt = [p for p in nxt if p[1] != cur]
@@ -2290,10 +2316,90 @@ def coverage(fk, key, base_frames=(), after_seq=0, case=None):
         used.append("%s = [%r,%r)" % (best[2], best[0], best[1]))
         cur = best[1]
     if cur == ext:
+        if early is not None:
+            return early
         return True, "extent %r covered by %s" % (ext, "; ".join(used))
     if skipped or fk.unknown:
         return None, "coverage of %s not evaluable: assignments %s are not of a modelled form" % (key, "; ".join(skipped) or "inside unmodelled constructs")
     return False, "extent is [0,%r) but the assignments only cover [0,%r)%s" % (ext, cur, (" (" + "; ".join("%s=[%r,%r)" % (p[2], p[0], p[1]) for p in pieces) + ")") if pieces else " (no covering assignment found)")
+
+
+def _early_exit_before(fk, key, ext, base_frames, alloc_seq, case):
+    """a `return` between the allocation of `key` and its last assignment, at the nesting level of the assignments and only under if-conditions:
+    the path through it leaves the array (partly) unassigned unless the condition says the extent is 0.
+    -> None (no such exit / harmless), (False, text) for a condition that admits a positive extent, (None, text) if the condition is not read"""
+    nb = len(base_frames)
+    writes = [e for e in fk.events if e.kind == "sub" and e.mode == "write" and e.arr is not None and e.arr.key == key and e.seq > alloc_seq
+              and [repr(x) for x in e.frames[:nb]] == [repr(x) for x in base_frames]]
+    if not writes:
+        return None
+    last = max(e.seq for e in writes)
+    for r in fk.events:
+        if r.kind != "return" or r.seq <= alloc_seq or r.seq >= last:
+            continue
+        if [repr(x) for x in r.frames[:nb]] != [repr(x) for x in base_frames]:
+            continue
+        extra = r.frames[nb:]
+        if not extra or any(f.kind == "loop" for f in extra):
+            continue
+        if any(f.kind == "case" for f in extra):
+            if case is None or not any(case in getattr(f, "labels", []) for f in extra if f.kind == "case"):
+                continue
+        ifs = [f for f in extra if f.kind == "if"]
+        if not ifs:
+            continue
+        verdicts = [_extent_test(fk, f.node.get("c"), ext, f.branch == "then") for f in ifs]
+        if any(v == "zero" for v in verdicts):
+            continue          # only taken for an empty array
+        line = r.node.get("l")
+        pos = [v for v in verdicts if isinstance(v, tuple)]
+        if pos and len(ifs) == 1:
+            return False, "the function returns at line %s under `%s`, i.e. also for the extent %r = %d, before %s is assigned on [0,%r): the array stays uninitialised on that path" % (
+                line, ifs[0].canon, ext, pos[0][1], key, ext)
+        return None, "coverage of %s not evaluable: a return at line %s under `%s` precedes the assignments" % (key, line, " && ".join(f.canon for f in ifs))
+    return None
+
+
+def _extent_test(fk, cond, ext, positive):
+    """'zero': the condition (taken as true if `positive`, else as false) implies extent == 0; ('pos', n): it holds for the positive extent n; None: not read"""
+    c = strip(cond)
+    if c is None:
+        return None
+    if c.get("k") == "Un" and c.get("op") == "!":
+        return _extent_test(fk, c["e"], ext, not positive)
+    if c.get("k") == "MCall" and c.get("n") == "empty" and not c.get("a"):
+        a = fk.array_of(c.get("obj")) if c.get("obj") is not None else None
+        s0 = fk.norm(a.extent) if a is not None and a.extent is not None else fk.norm(Lin.atom("size(%s)" % fk.okey(c.get("obj"))))
+        if s0 == ext:
+            return "zero" if positive else None
+        return None
+    if c.get("k") == "Bin" and c.get("op") in ("==", "!=", "<", "<=", ">", ">="):
+        op = c["op"]
+        a, b = fk.size(c["lhs"]), fk.size(c["rhs"])
+        if a is None or b is None:
+            return None
+        a, b = fk.norm(a), fk.norm(b)
+        if b == ext and a.is_const():
+            a, b = b, a
+            op = {"<": ">", "<=": ">=", ">": "<", ">=": "<=", "==": "==", "!=": "!="}[op]
+        if a != ext or not b.is_const():
+            return None
+        if not positive:
+            op = {"<": ">=", "<=": ">", ">": "<=", ">=": "<", "==": "!=", "!=": "=="}[op]
+        n = b.c
+        # now: ext op n holds on the returning path
+        if (op == "==" and n == 0) or (op == "<" and n == 1) or (op == "<=" and n == 0):
+            return "zero"
+        if op == "==" and n > 0:
+            return ("pos", n)
+        if op == "<=" and n >= 1:
+            return ("pos", n)
+        if op == "<" and n >= 2:
+            return ("pos", n - 1)
+        if op in (">", ">=", "!="):
+            return ("pos", max(n, 0) + 1)
+        return None
+    return None
 
 
 def elsewhere(fk, keys=(), names=()):
@@ -2330,6 +2436,12 @@ def elsewhere(fk, keys=(), names=()):
             else:
                 arr = fk.array_of(a2) if a2.get("k") in ("Ref", "Member") else None
                 k = arr.key if arr is not None else fk.okey(a2)
+            if k is None and _subscript(a2) is not None and a2.get("k") in ("Index", "OpCall", "MCall"):
+                # a single element of one of the arrays handed on by (non-const) reference: std::swap(A[i], A[j]), helper(A[i])
+                sa = fk.sub_arr(a2)
+                ty0 = fk.fn.type(pts[i]) if i < len(pts) else ""
+                if sa is not None and sa.key in keys and ty0.rstrip().endswith("&") and not ty0.startswith("const") and e.name not in names:
+                    return "an element of %s is handed to %s() by reference, which is not modelled" % (sa.key, e.name or callee)
             if k is not None and k in keys:
                 ty = fk.fn.type(pts[i]) if i < len(pts) else ""
                 if not (ty.startswith("const") and ty.endswith("&")) and not (callee.startswith("std::") and e.name in ("size", "empty")):
